@@ -1252,6 +1252,8 @@ impl Scenario for FactoryScenario {
         let mut outs: Vec<Out> = vec![];
         let mut checked = 0u64;
         let mut n_ops = 0u64;
+        // frame of a second compressor of the same algorithm, made on first need (None inside: it refused)
+        let mut foreign: Option<Option<Vec<u8>>> = None;
         while let Some(mut o) = ops.next() {
             n_ops += 1;
             if one_family {
@@ -1313,6 +1315,32 @@ impl Scenario for FactoryScenario {
                             None
                         }
                     }
+                }
+                5 if o[2] % 3 == 0 && !outs.is_empty() => {
+                    // a frame made by ANOTHER compressor of the same algorithm (trained on a different
+                    // corpus) with its tail cut off is offered to this one.  What it answers is not judged
+                    // (a refusal is the expected answer) and not written into the trace; the calls that
+                    // FOLLOW are judged as always: a refused call must leave nothing behind in the compressor
+                    if foreign.is_none() {
+                        let t2 = corpus((tk + 1 + (o[3] % 5) as usize) % 7, tlen.max(40), tx ^ 0x5a5a);
+                        let made = CompressorFactory::create(algorithm, Some(&t2)).ok().and_then(|c2| {
+                            let p2 = &t2[..t2.len().min(200)];
+                            c2.compress(p2).ok()
+                        });
+                        foreign = Some(made);
+                    }
+                    if let Some(Some(f)) = &foreign {
+                        let k = 1 + (o[3] % 6) as usize;
+                        if f.len() > k + 8 {
+                            cx.probe("foreign_cut_frame_offered");
+                            cx.ev(format!("decompress(frame of {} B made by a second compressor trained on another corpus, last {} B cut off) -> not judged", f.len(), k));
+                            let _ = std::panic::catch_unwind(std::panic::AssertUnwindSafe(|| {
+                                let _ = c.decompress(&f[..f.len() - k]);
+                            }));
+                        }
+                    }
+                    // ... and straight afterwards one of this compressor's own frames
+                    Some(((o[1] as usize) % outs.len(), "after a foreign cut frame"))
                 }
                 _ => {
                     if outs.is_empty() {
